@@ -33,7 +33,7 @@ package vm
 //@ assumed
 //@ pure
 //@ requires v != nil
-//@ ensures result != nil && result.cbe == v.cbe && result.flags == v.flags
+//@ ensures result != nil && result.sc != nil && result.cbe == v.cbe && result.flags == v.flags
 //@ ensures len(v.istack) > 0 ==> result == v.istack[len(v.istack)-1]   // its body, literally
 
 //@ func (*Context).IsCalledByEntry
@@ -129,6 +129,10 @@ package vm
 //@ func (*Context).ScriptHash
 //@ assumed
 //@ pure
+//@ func (*Context).IsDeployed
+//@ inline
+//@ func (*Context).GetManifest
+//@ inline
 
 // The invocation depth limit (C12): a load past the limit panics, i.e. FAULTs.
 //@ prop C12,C15,C16
@@ -179,3 +183,12 @@ package vm
 //@ modifies v.state, v.getPrice, v.istack, v.estack.elems, v.uncaughtException, v.refs, v.gasConsumed, v.gasLimit, v.SyscallHandler, v.LoadToken, v.trigger, v.invTree
 //@ ensures[clean] v.state == vmstate.None && v.uncaughtException == nil && len(v.istack) == 0 && len(v.estack.elems) == 0 && v.refs == 0 && v.gasLimit == 0 && v.getPrice == nil && v.invTree == nil && v.trigger == t
 //@ ensures[gas] v.gasConsumed != nil && uint256.u256(*v.gasConsumed) == 0
+
+// Gas accounting touches the consumed-gas counter only (C16: nothing a flag check relies on).
+//@ prop C16
+//@ func (*VM).addPicoGasInternal
+//@ requires v != nil && v.gasConsumed != nil && gas != nil
+//@ modifies *v.gasConsumed
+//@ func (*VM).AddPicoGas
+//@ requires v != nil && v.gasConsumed != nil
+//@ modifies *v.gasConsumed
